@@ -46,11 +46,12 @@ def run_cases(
     work = Path(tempfile.mkdtemp(prefix="pool_", dir=scratch_base()))
     # cases may pin the interpreter hash seed of the process that runs them (C01): one batch set per hash seed
     # a case marked "solo" gets a process of its own (it is the first and only simulation that interpreter ever loads)
-    groups: Dict[Optional[str], List[Dict[str, Any]]] = {}
-    batches_hs: List[Tuple[List[Dict[str, Any]], Optional[str]]] = []
+    # a case may also name environment variables of its process ("env": {"TZ": ...}); they are part of the grouping
+    groups: Dict[Any, List[Dict[str, Any]]] = {}
+    batches_hs: List[Tuple[List[Dict[str, Any]], Any]] = []
     shared = [c for c in cases if not c.get("solo")]
     for c in cases:
-        hs = str(c["hashseed"]) if "hashseed" in c else hashseed
+        hs = (str(c["hashseed"]) if "hashseed" in c else hashseed, tuple(sorted((c.get("env") or {}).items())))
         if c.get("solo"):
             batches_hs.append(([c], hs))
         else:
@@ -76,7 +77,7 @@ def run_cases(
                 if warn_as_error:
                     cmd += ["-W", "error::RuntimeWarning"]
                 cmd += ["-m", "hivemon.drive.worker", str(bf), str(of)]
-                p = subprocess.Popen(cmd, env=worker_env(hs), stdout=subprocess.DEVNULL, stderr=open(work / f"err{i}.txt", "w"), cwd="/")
+                p = subprocess.Popen(cmd, env=worker_env(hs[0], dict(hs[1])), stdout=subprocess.DEVNULL, stderr=open(work / f"err{i}.txt", "w"), cwd="/")
                 procs.append((p, of, b, work / f"err{i}.txt"))
                 running.append(p)
             running = [p for p in running if p.poll() is None]
